@@ -168,6 +168,12 @@ func (e *linEnv) lenOf(buf ssa.Value) *linExpr {
 				return e.lenOf(t.Call.Args[0])
 			}
 		}
+		// append(a, b...): len(a) + len(b)
+		if calleeNameSSA(&t.Call) == "builtin.append" && len(t.Call.Args) == 2 {
+			if _, isSl := t.Call.Args[1].Type().Underlying().(*types.Slice); isSl {
+				return e.lenOf(t.Call.Args[0]).add(e.lenOf(t.Call.Args[1]), 1)
+			}
+		}
 	case *ssa.Convert:
 		// []byte(string): same length
 		if bt, ok := t.X.Type().Underlying().(*types.Basic); ok && bt.Info()&types.IsString != 0 {
@@ -812,6 +818,9 @@ func (s *boundSite) goalOf(env *linEnv) *linExpr {
 	return goal.add(env.lenOf(s.Buf), -1)
 }
 
+// withAllSlices: list index and slice expressions on slices of every element type, not only []byte.
+var withAllSlices = false
+
 // withStrings: also list index and slice expressions on strings (set by the callers that want them).
 var withStrings = false
 
@@ -822,6 +831,9 @@ func boundSites(fn *ssa.Function) []*boundSite {
 		sl, ok := t.Underlying().(*types.Slice)
 		if !ok {
 			return false
+		}
+		if withAllSlices {
+			return true
 		}
 		b, ok := sl.Elem().Underlying().(*types.Basic)
 		return ok && b.Kind() == types.Uint8
@@ -1559,37 +1571,73 @@ func (bp *boundsProver) prove(s *boundSite) {
 }
 
 func (bp *boundsProver) proveAtPreds(f *ssa.Function, s *boundSite, blk *ssa.BasicBlock, depth int, seen map[*ssa.BasicBlock]bool) bool {
+	return bp.proveAtPredsSubst(f, s, blk, depth, seen, nil)
+}
+
+// proveAtPredsSubst: the goal on every incoming path of blk. A value of the goal that is a phi of blk (or was
+// replaced by one further down) is read as the value it receives on the edge taken; cur maps the goal's own values to
+// what they stand for at the current block.
+func (bp *boundsProver) proveAtPredsSubst(f *ssa.Function, s *boundSite, blk *ssa.BasicBlock, depth int, seen map[*ssa.BasicBlock]bool, cur map[ssa.Value]ssa.Value) bool {
 	if depth > 5 || len(blk.Preds) == 0 || seen[blk] {
 		return false
 	}
 	seen[blk] = true
 	defer delete(seen, blk)
-	// the values of the goal must be defined before the merge: require their defining blocks to dominate blk's preds
-	for _, p := range blk.Preds {
+	now := func(v ssa.Value) ssa.Value {
+		if r, ok := cur[v]; ok {
+			return r
+		}
+		return v
+	}
+	for pi, p := range blk.Preds {
 		env := newLinEnv()
 		var extra []Fact
 		if ef, ok := edgeFact(p, blk); ok {
 			extra = append(extra, ef)
 		}
-		facts := bp.factsAtPoint(f, p, extra, env)
-		if s.Upper != nil {
-			if in, ok := s.Upper.(ssa.Instruction); ok && !in.Block().Dominates(p) {
-				return false
+		next := map[ssa.Value]ssa.Value{}
+		for k, v := range cur {
+			next[k] = v
+		}
+		okDefs := true
+		for _, gv := range []ssa.Value{s.Upper, s.Low, s.Buf} {
+			if gv == nil {
+				continue
+			}
+			v := now(gv)
+			if phi, isPhi := v.(*ssa.Phi); isPhi && phi.Block() == blk {
+				v = phi.Edges[pi]
+				next[gv] = v
+			}
+			// the value must be defined before the merge
+			if in, ok := v.(ssa.Instruction); ok && !(in.Block() == p || in.Block().Dominates(p)) {
+				okDefs = false
+			}
+			// a value that is an expression over a phi of blk is not followed
+			if _, isPhi := v.(*ssa.Phi); !isPhi {
+				for o := range sliceOf(v) {
+					if ph, ok := o.(*ssa.Phi); ok && ph.Block() == blk && o != v {
+						okDefs = false
+					}
+				}
 			}
 		}
-		if s.Low != nil {
-			if in, ok := s.Low.(ssa.Instruction); ok && !in.Block().Dominates(p) {
-				return false
-			}
-		}
-		if in, ok := s.Buf.(ssa.Instruction); ok && !in.Block().Dominates(p) {
+		if !okDefs {
 			return false
 		}
+		saved := bp.goalValues
+		for _, v := range next {
+			bp.goalValues = append(bp.goalValues, v)
+		}
+		facts := bp.factsAtPoint(f, p, extra, env)
+		bp.goalValues = saved
+		env.subst = next
 		goal := s.goalOf(env)
+		env.subst = nil
 		if env.entailsLin(facts, goal) {
 			continue
 		}
-		if !bp.proveAtPreds(f, s, p, depth+1, seen) {
+		if !bp.proveAtPredsSubst(f, s, p, depth+1, seen, next) {
 			return false
 		}
 	}
